@@ -41,6 +41,7 @@ var guardedBy = []guardSpec{
 }
 
 func runC15(c *core.Ctx) {
+	runFixtures(c, "locks")
 	c.Explain("Linearizability, race freedom in general and deadlock freedom over interleavings are NOT decidable by a sound static argument available here (no pointer analysis, no scheduler model); the race detector and systematic schedule enumeration are other technique families. Two necessary conditions are decided: (R15.1) a guarded-by table (14 lines, each confirmed by reading): the blob's byte slice is touched through a receiver only with the blob mutex held; mirrored/handed-out counters and published flags only through sync/atomic; the serial transaction's result map only under its mutex; the lazily loaded record fields are written only inside the matching sync.Once.Do closure and read only after that Do has returned in the same function (or after the atomic published flag was seen). A shared blob touched without its guard IS a data race. (R15.2) check-then-act in one transaction: each mutating operation of the key-value FS issues the look-ups its decision depends on and the resulting Set on the same Transaction value — otherwise two goroutines can both pass the check (two Mkdir of one name both return nil, which no sequential order produces); (R15.3 = R19.4, no dispatch under the blob lock, checked under C19). The property itself is not claimed.")
 	c.Assume("lock identity by access path; single receiver per method (no aliasing of two blobs in one method other than fresh results)")
 	c.RuleDoc("R15.1", "guarded-by table")
